@@ -6,10 +6,15 @@ use crate::{
     },
     config, Result,
 };
+#[cfg(not(sentinel_verif))]
 use std::sync::{
     atomic::{AtomicU32, Ordering},
     Arc,
 };
+#[cfg(sentinel_verif)]
+use crate::verif_sync::AtomicU32;
+#[cfg(sentinel_verif)]
+use std::sync::{atomic::Ordering, Arc};
 
 #[allow(dead_code)]
 #[derive(Debug)]
